@@ -50,8 +50,6 @@ def cases(ctx):
         add("seq1", f)
         add("seq1", "*=0x008000\n" + f)
     pairs = list(itertools.product(FRAGMENTS, repeat=2))
-    if tier == "quick":
-        pairs = rng.sample(pairs, 700)
     for a, b in pairs:
         add("seq2", a + " " + b)
         add("seq2", a + b)
@@ -77,6 +75,20 @@ def cases(ctx):
                 m = list(lines)
                 m[i], m[j] = m[j], m[i]
             out.append({"kind": "mutation", "rom": base["rom"], "src": "\n".join(m), "files": base["files"],
+                        "count_empty": True, "spec": {"t": "c15"}})
+    # ends of input: programs without a final newline, cut at every position of their last line
+    tails = ["rts ; done", "nop ;", "lda #0", "lda 0", "ldx #0", "lda #10", "lda 0x00", ".db 0", "x = 0", "lda.w #0x1234,x",
+             "lda (0),y", "lda [0]", ".ascii 'a'", "m(1, 0)", "l:", "*=0", "@=0", ".dw 1, 0", "jmp (0,x)", "inc", "asl ; a",
+             "{", "}", ".if 0", ".for i := 0, 0", "/* c */", "; c", "tax;", "tax ;", "tax\t; c"]
+    for t in tails:
+        for cut in range(1, len(t) + 1):
+            add("end-of-input", "*=0x008000\n" + t[:cut])
+            add("end-of-input", t[:cut])
+    for _ in range(30 if tier == "quick" else 1000):
+        base = e2emod.text_case(rng)
+        text = base["src"].rstrip("\n")
+        for cut in range(0, min(14, len(text))):
+            out.append({"kind": "end-of-input", "rom": base["rom"], "src": text[:len(text) - cut], "files": base["files"],
                         "count_empty": True, "spec": {"t": "c15"}})
     # recursion and loops that must end with an error or an output
     add("recursion", "*=0x008000\n.macro r() {\nr()\n}\nr()\n")
